@@ -95,7 +95,12 @@ func c01Fuzzy(n int, maxLimit int) {
 	thr := verifInt("threshold")
 	// two symbolic letters; the fallback runs when the word is not in the index
 	q := vWord("q", 2)
+	if verifBool("stopWordQuery") {
+		// nothing but stop words / one-letter tokens: no index term at all
+		q = []string{"a b", "to a", "a"}[verifIntRange("sq", 0, 2)]
+	}
 	opts := SearchOptions{Limit: limit, UseFuzzy: true, FuzzyThreshold: thr, AllPlatforms: true}
+	opts.PipelineBoost = []float64{0, 0.5, 1, 2}[verifIntRange("pipelineBoost", 0, 3)]
 	res := db.SearchUniversal(q, opts)
 	c01Shape(db, res, limit, "fuzzy fallback")
 	verifReach("checked")
